@@ -210,6 +210,8 @@ pub enum Ev {
     StreamErr { variant: String, step: u64 },
     EofSeen { step: u64 },
     ChannelDropped { step: u64 },
+    /// a poll of the request stream is about to be made (orders application drops against polls)
+    PollCall,
 }
 
 struct HShared {
@@ -658,6 +660,7 @@ async fn run_inner(cfg: &Cfg, out: &mut Outcome) {
                 let w = waker(sflag.clone());
                 // poll the stream until Pending, as a driver task does
                 loop {
+                    sh.borrow_mut().ev.push(Ev::PollCall);
                     let p = {
                         let s = srv.as_mut().unwrap();
                         catch_unwind(AssertUnwindSafe(|| s.poll(&mut Context::from_waker(&w))))
@@ -896,13 +899,14 @@ async fn run_inner(cfg: &Cfg, out: &mut Outcome) {
             Ev::StreamErr { .. } => "err",
             Ev::EofSeen { .. } => "eof",
             Ev::ChannelDropped { .. } => "chd",
+            Ev::PollCall => "",
         };
         fnv(&mut h, k);
     }
     out.sig = h;
     out.trace = tlog;
     for e in sh.borrow().ev.iter() {
-        if !matches!(e, Ev::HPoll { .. }) {
+        if !matches!(e, Ev::HPoll { .. } | Ev::PollCall) {
             out.trace.push(format!("    {:?}", e));
         }
     }
@@ -1340,10 +1344,16 @@ fn oracles(
     let mut last_in_was_noop_cancel = false;
     let mut last_in_was_dup = false;
     let mut must_refuse: Vec<usize> = vec![];
+    let mut strict_of: HashMap<usize, usize> = HashMap::new();
     let mut last_was_at_limit_blocked = false;
     let mut idle_f6: Vec<(usize, u64, bool)> = vec![];
+    let mut appdropped_before_call: BTreeSet<usize> = BTreeSet::new();
     for (i, e) in ev.iter().enumerate() {
         match e {
+            Ev::PollCall => {
+                // abandonments the channel has been notified of before this poll begins
+                appdropped_before_call = appdropped.clone();
+            }
             Ev::In { seq, kind, id, v, .. } => {
                 if *kind == "req" {
                     last_in_was_noop_cancel = false;
@@ -1354,6 +1364,9 @@ fn oracles(
                         .filter(|q| !ended_set.contains(q) && !appdropped.contains(q) && !exp_possible(q, *v, &v_read))
                         .count();
                     let possible = yielded.iter().filter(|q| !ended_set.contains(q)).count();
+                    // requests the application abandoned before this poll began do not count either
+                    let possible_strict = yielded.iter().filter(|q| !ended_set.contains(q) && !appdropped_before_call.contains(q)).count();
+                    strict_of.insert(*seq, possible_strict);
                     // duplicate-in-flight?
                     let dup_certain = yielded.iter().any(|q| life[q].id == *id && !ended_set.contains(q) && !appdropped.contains(q) && !exp_possible(q, *v, &v_read));
                     let dup_possible = yielded.iter().any(|q| life[q].id == *id && !ended_set.contains(q));
@@ -1426,6 +1439,8 @@ fn oracles(
                         (Some(l), Some((sq, _c, possible))) if life[&sq].id == *id => {
                             if possible < l {
                                 out.viols.push(Viol::new("C12", "throttled-below-limit", format!("request seq {sq} was refused although at most {possible} < L={l} requests were in flight when it was read")));
+                            } else if strict_of.get(&sq).map(|p| *p < l).unwrap_or(false) {
+                                out.viols.push(Viol::new("C12", "throttled-after-abandonment", format!("request seq {sq} was refused although only {} < L={l} requests were in flight when it was read, not counting those the application had abandoned before that poll began", strict_of[&sq])));
                             }
                             out.cells.push("C12.throttled".into());
                             pending_read = None;
@@ -1519,6 +1534,15 @@ fn oracles(
                             vv = vv.with_state("limiter=at-limit/sink=not-ready");
                         }
                         out.viols.push(vv);
+                    }
+                }
+                // C04: "it stops counting as in flight": every yielded request has certainly ended
+                // (answered or cancelled), at least one by cancellation, yet the channel still counts
+                if let Some(rep) = reported {
+                    let all_ended = !yielded.is_empty() && yielded.iter().all(|q| ended_set.contains(q));
+                    let any_cancelled = yielded.iter().any(|q| life[q].cancel_read.map(|c| c < i).unwrap_or(false));
+                    if all_ended && any_cancelled && *rep > 0 && pending_read.is_none() && *inbox == 0 {
+                        out.viols.push(Viol::new("C04", "cancelled-request-still-counted", format!("idle at step {step}: every request was answered or cancelled, yet in_flight_requests()={rep}")));
                     }
                 }
                 // C04: cancelled requests whose handler is still alive at an idle point
